@@ -31,3 +31,6 @@ add('C06', 'exploration', 'deviation-bounded exhaustive enumeration of grammar d
 add('C08', 'exploration', 'deviation-bounded exhaustive enumeration of grammar derivations x comment placements x targeted option sets against a reference transformer',
     'Every case within d deviations of 40 seed derivations (derivation alternative, comment of 12 kinds in any gap or at a statement edge, literal/name spelling, uniform style) crossed with strip_comments / keyword_case / identifier_case / truncate_strings alone, in pairs and with layout options; the expected token signature is computed from the input by a reference transformer and compared with the re-lexed output; idempotence on exact text. Exhaustive within d.',
     _E2, 'DESIGN.md 4/C08')
+add('C10', 'exploration', 'deviation-bounded exhaustive enumeration of grammar derivations x the three normal-form options (reindent x every sub-option combination), postconditions on the re-lexed output',
+    'Every case within d deviations of 40 seed derivations crossed with strip_whitespace, use_space_around_operators, and reindent under every sub-option combination (288); the normal-form postconditions are checked on the re-tokenised output and the two fixed points on exact text. Exhaustive within d.',
+    _E2, 'DESIGN.md 4/C10')
